@@ -53,7 +53,10 @@ def oracle(defn, syms, p, k):
         V = sympy.Matrix([[ev(sympy.diff(sm[r], syms[c]), env, rational) for c in U] for r in S])
         M = sympy.diag(*[rat(defn["process_noise"][u]) for u in U])
         Pn = Pn + V * M * V.T
-    out = {"state": {s: float(sympy.N(fx[i], 30)) for i, s in enumerate(S)}, "cov": tofloat(Pn), "updates": {}}
+    out = {"state": {s: float(sympy.N(fx[i], 30)) for i, s in enumerate(S)}, "cov": tofloat(Pn), "updates": {},
+           "G": {r: {c: float(sympy.N(Gm[i, j], 30)) for j, c in enumerate(S)} for i, r in enumerate(S)},
+           "V": ({r: {c: float(sympy.N(V[i, j], 30)) for j, c in enumerate(U)} for i, r in enumerate(S)} if U else {r: {} for r in S}),
+           "h": {}, "H": {}}
     # sensor updates are applied to the INPUT estimate (state, P), independently of the prediction
     env2 = dict(env)
     x0 = sympy.Matrix([rat(p["state"][s]) for s in S])
@@ -64,6 +67,8 @@ def oracle(defn, syms, p, k):
         H = sympy.Matrix([[ev(sympy.diff(G.to_sympy(rd[r], syms), syms[c]), env2, rational) for c in S] for r in R])
         Q = sympy.diag(*[rat(defn["sensor_noise"][key][r]) for r in R])
         z = sympy.Matrix([rat(p["readings"][key][r]) for r in R])
+        out["h"][key] = {r: float(sympy.N(h[i], 30)) for i, r in enumerate(R)}
+        out["H"][key] = {r: {c: float(sympy.N(H[i, j], 30)) for j, c in enumerate(S)} for i, r in enumerate(R)}
         Sm = H * Pn_u * H.T + Q
         Si = Sm.inv()
         inn = z - h
@@ -85,6 +90,16 @@ def oracle(defn, syms, p, k):
                                "innovation": {r: float(sympy.N(inn[i], 30)) for i, r in enumerate(R)}, "S": tofloat(Sm),
                                "rejected": rej, "margin": margin, "nis": float(sympy.N(nis, 30))}
     return out
+
+
+def all_finite(o):
+    if isinstance(o, dict):
+        return all(all_finite(v) for v in o.values())
+    if isinstance(o, (list, tuple)):
+        return all(all_finite(v) for v in o)
+    if isinstance(o, float):
+        return o == o and abs(o) != float("inf")
+    return True
 
 
 def run_job(job):
@@ -156,6 +171,8 @@ def run_job(job):
                     r["updates"][key] = {"_raised": type(e).__name__ + ": " + str(e)[:300]}
         try:
             r["oracle"] = oracle(defn, syms, p, job.get("k"))
+            if not all_finite(r["oracle"]):
+                r["oracle"] = {"_failed": "an expression or derivative is undefined (not finite) at this point"}
         except Exception as e:  # noqa
             r["oracle"] = {"_failed": type(e).__name__ + ": " + str(e)[:200]}
         pts.append(r)
